@@ -96,6 +96,11 @@ func (s *Scenario) addRuntime(rng *rand.Rand, profile string) {
 	} else if !on {
 		on = rng.IntN(3) == 0
 	}
+	if profile == "registry" && s.Seed%4 == 0 {
+		// Two-runtime scenarios: the idle owner's suspended runtime exists (even seeds of this profile) and
+		// compute nodes of the scenario's own runtime sign up for it.
+		on = true
+	}
 	switch RuntimeMode {
 	case "on":
 		on = true
